@@ -28,13 +28,39 @@ public:
     bool checkExpression_clauses(expression_t expr);
 };
 static bool areEquivalent__contract(type_t a, type_t b) { return verif_eq_matrix[a.self][b.self]; }
+#ifdef C14_MODULAR
+/* Contract of TypeChecker::areEquivalent at top level, used by its callers in the inline-if job (the callee's body is
+   the obligation of c14_equiv_contract, which proves exactly these three facts on the real function):
+     (S) symmetric;  (K) true only for two types of the same base kind, which is one of the nine value kinds (so never for
+   the empty type);  (P) a bare primitive double is equivalent to
+   exactly the types that are doubles.
+   Operands are identified by their tag (1 = the primitive built by getInlineIfCommonType, 2/3 = the two branches). */
+static bool verif_top_matrix[4][4];
+static bool verif_value_kind(kind_t k) { return k == INT || k == BOOL || k == CLOCK || k == CHANNEL || k == RECORD || k == ARRAY || k == SCALAR || k == DOUBLE || k == STRING; }
+static bool areEquivalent__top(type_t a, type_t b)
+{
+    __CPROVER_assert(a.tag >= 0 && a.tag <= 3 && b.tag >= 0 && b.tag <= 3, "contract areEquivalent: operand is one of the tagged top-level types");
+    __CPROVER_assert((a.tag != 1 || (a.base == DOUBLE && a.wrap == 0)) && (b.tag != 1 || (b.base == DOUBLE && b.wrap == 0)), "contract areEquivalent: the only primitive built here is double");
+    __CPROVER_assert((a.tag != 0 || a.unknown()) && (b.tag != 0 || b.unknown()), "contract areEquivalent: tag 0 is the empty type");
+    if (a.tag == 1 && b.tag == 1) return true;
+    if (a.tag == 1) return b.is_double();
+    if (b.tag == 1) return a.is_double();
+    bool r = verif_top_matrix[a.tag][b.tag];
+    __CPROVER_assume(!r || (a.base == b.base && verif_value_kind(a.base)));
+    return r;
+}
+#endif
 static bool isSameScalarType__contract(type_t a, type_t b) { return verif_sc_matrix[a.self][b.self]; }
 }  // namespace UTAP
 using namespace UTAP;
 using namespace Constants;
 
 #include "helpers.inc"
+#ifdef C14_MODULAR
+#include "tc_funcs_mod.inc"
+#else
 #include "tc_funcs.inc"
+#endif
 #include "mini_ce.inc"
 
 static void env_havoc()
@@ -77,6 +103,26 @@ extern "C" void w_c14_swap(int op, int ka, unsigned wa, int kb, unsigned wb, int
 {
     env_havoc();
     type_t A = mk(ka, wa, 0), B = mk(kb, wb, 1);
+    A.tag = 2; B.tag = 3;
+#ifdef C14_MODULAR
+    { bool e22, e23, e33, e00, e02, e03;
+      verif_top_matrix[2][2] = e22; verif_top_matrix[2][3] = e23; verif_top_matrix[3][2] = e23; verif_top_matrix[3][3] = e33;
+      verif_top_matrix[0][0] = e00; verif_top_matrix[0][2] = e02; verif_top_matrix[2][0] = e02; verif_top_matrix[0][3] = e03; verif_top_matrix[3][0] = e03; }
+#endif
     run(op, kc, wc, A, B, ret_ab, kind_ab, err_ab);
     run(op, kc, wc, B, A, ret_ba, kind_ba, err_ba);
 }
+#ifndef C14_MODULAR
+/* obligation of the callee: the real areEquivalent on two arbitrary flat types, and on the primitive double */
+extern "C" void w_c14_equiv(int ka, unsigned wa, int kb, unsigned wb, int* ab, int* ba, int* same_base, int* da, int* a_is_double)
+{
+    env_havoc();
+    type_t A = mk(ka, wa, 0), B = mk(kb, wb, 1);
+    *ab = TypeChecker::areEquivalent(A, B);
+    *ba = TypeChecker::areEquivalent(B, A);
+    *same_base = A.base == B.base && (A.base == INT || A.base == BOOL || A.base == CLOCK || A.base == CHANNEL || A.base == RECORD || A.base == ARRAY || A.base == SCALAR || A.base == DOUBLE || A.base == STRING);
+    type_t D = type_t(DOUBLE, position_t(), 0);
+    *da = TypeChecker::areEquivalent(D, A) * 2 + TypeChecker::areEquivalent(A, D);
+    *a_is_double = A.is_double();
+}
+#endif
